@@ -12,6 +12,7 @@ def main():
     ap.add_argument("--replay")
     a = ap.parse_args()
     tier = a.tier if a.tier in ("quick", "thorough") else "quick"
+    os.environ["FX_TIER"] = tier
     seed = int(os.environ.get("VERIF_SEED", "1") or "1")
     mod = importlib.import_module("props." + a.prop.lower())
     rep = Report(a.prop, tier, seed)
